@@ -36,8 +36,6 @@ def make_md(c2, md):
     """build the library's BeaconMetadata from field byte strings the way the client does (attribute assignment)"""
     m = c2.BeaconMetadata()
     for f in FIELDS:
-        if f == "size":
-            continue
         v = B(md[f])
         setattr(m, f, v if f == "aes_rand" else int.from_bytes(v, "big"))
     m.info = B(md["info"])
@@ -75,9 +73,12 @@ def run(ctx):
 
     ev = []
 
-    def transport(md, kb, where):
+    def transport(md, kb, where, obj=None):
         key = keys[kb]
-        o = core.outcome(lambda: c2.encrypt_metadata(make_md(c2, md), key.publickey()))
+        if obj is not None:
+            # the SAME metadata object is sent again after its info changed (its size field still holds the previous value)
+            obj.info = B(md["info"])
+        o = core.outcome(lambda: c2.encrypt_metadata(obj if obj is not None else make_md(c2, md), key.publickey()))
         ctx.evaluations += 1
         e = {"op": "transport", "md": md, "k": kb, "r": "ok" if o[0] == "ok" else ("ValueError" if o[0] == "ValueError" else o[1]), "plain": [], "back": {f: [] for f in FIELDS} | {"info": []}}
         if o[0] == "ok":
@@ -126,6 +127,10 @@ def run(ctx):
             "truncate": good[:-1],
             "empty": b"",
             "wrong_magic": raw_rsa_encrypt(b"\x00\x00\xbe\xee" + ser[4:], key, rng),
+            "magic_0001beef": raw_rsa_encrypt(b"\x00\x01\xbe\xef" + ser[4:], key, rng),
+            "magic_deadbeef": raw_rsa_encrypt(b"\xde\xad\xbe\xef" + ser[4:], key, rng),
+            "magic_beef0000": raw_rsa_encrypt(b"\xbe\xef\x00\x00" + ser[4:], key, rng),
+            "magic_efbe0000": raw_rsa_encrypt(b"\xef\xbe\x00\x00" + ser[4:], key, rng),
             "short_plain": raw_rsa_encrypt(b"\x00\x00\xbe\xef", key, rng),
             "empty_plain": raw_rsa_encrypt(b"", key, rng),
         }
@@ -140,9 +145,15 @@ def run(ctx):
         kb = rng.choice([128, 256])
         md = {f: L(rng.randbytes(WIDTH[f])) for f in FIELDS}
         md["magic"] = [0, 0, 190, 239]
-        md["size"] = [0, 0, 0, 0]
         md["info"] = L(bytes(rng.randrange(256) for _ in range(rng.randrange(0, kb - 11 - 59 + 3))))
         ev.append(transport(md, kb, "random"))
+        # ... and re-sent from one object with a different info each time
+        if rng.random() < 0.5:
+            obj = make_md(c2, md)
+            for _j in range(3):
+                md = dict(md)
+                md["info"] = L(bytes(rng.randrange(256) for _ in range(rng.randrange(0, kb - 11 - 59 + 1))))
+                ev.append(transport(md, kb, "resend", obj=obj))
     if not q:
         for kb in (128, 256):
             for n in range(0, kb - 11 - 59 + 2):
